@@ -7,7 +7,7 @@ from vf.teq import canon
 ID = 'C15'
 LEVEL = 'exploration'
 RULE = ('config texts mixing known and unknown targets (flat, block, scoped, module-qualified), values holding references to unknown configurables '
-        'at depth 0-3, macros holding unknown references, imports of missing modules; skip_unknown in {False, True, list, tuple, set} with random '
+        'at depth 0-3 in every position of the value syntax (top level, list, tuple, dict value, dict key, tuple used as dict key), macros holding unknown references, imports of missing modules; skip_unknown in {False, True, list, tuple, set} with random '
         'subsets of the unknown names listed; static registration and dynamic registration (fresh generated package per case, parsed as first use '
         'and again after the names are registered). Oracle: (metamorphic) parse(text, setting) == parse(reduced text, setting) where the reduced text '
         'deletes exactly the statements the rule says; unknown-not-listed -> error; every placeholder raises "No configurable matching" on use and '
@@ -35,7 +35,12 @@ REQUIRED_BUCKETS = ['list:includes-known-name', 'mode:late-known-static', 'mode:
                     'placeholder:use-in-c15f', 'placeholder:error-names-selector', 'placeholder:finalize-names-binding', 'finalize:same-outcome-as-reduced',
                     'dynamic:partial-list-error', 'dynamic:skip-tuple', 'dynamic:skip-set', 'dynamic:list-includes-known-name',
                     'dynamic:placeholder-in-store', 'dynamic:placeholder-use-raises', 'dynamic:placeholder-finalize-raises', 'dynamic:known-reference-kept',
-                    'dynamic:entry-file', 'dynamic:entry-fab', 'late-known:finalize-passes']
+                    'dynamic:entry-file', 'dynamic:entry-fab', 'late-known:finalize-passes',
+                    # references (placeholders) in every position the value syntax has: tuples, dict keys, tuples that are dict keys
+                    'refpos:unknown:tuple', 'refpos:unknown:dict-key', 'refpos:unknown:tuple-in-dict-key', 'refpos:known:dict-key',
+                    'placeholder:kept:tuple', 'placeholder:kept:dict-key', 'placeholder:kept:tuple-in-dict-key', 'placeholder:kept-in-dict-key-of-macro',
+                    'placeholder:use-raises-only-in-dict-keys', 'placeholder:finalize-raises-only-in-dict-keys',
+                    'dynamic:placeholder-in-dict-key', 'dynamic:known-reference-in-dict-key']
 ORACLE_COUNTERS = ['oracle_evals', 'reduced_compared', 'placeholders_checked']
 _S = {}
 KNOWN = {'c15f': 'c15.m.c15f', 'c15.m.c15f': 'c15.m.c15f', 'm.c15g': 'c15.m.c15g', 'c15g': 'c15.m.c15g'}
@@ -71,6 +76,31 @@ def finish(ctx):
   _S['tree'].cleanup()
 
 
+def gen_key(rng, i, allow_unknown, used):
+  """Key number i of a dict literal: a plain string (the usual case), a reference, or a tuple holding references (a reference - and so a
+  placeholder - may sit wherever the syntax allows a value, dict keys included).  Keys of one dict are pairwise different whatever equality
+  references have: bare reference keys use pairwise different names, tuple keys start with their index.  Known references in keys are not
+  evaluated (c15g returns a list, which cannot be a key)."""
+  def keyref():
+    if allow_unknown and rng.random() < 0.7:
+      return ['ref', rng.choice(UNKNOWN_R), rng.random() < 0.5, rng.choice(['', 'sc', 'a/b'])]
+    return ['ref', 'c15g', False, rng.choice(['', 'sc'])]
+  r = rng.random()
+  if r < 0.5:
+    return 'k%d' % i
+  if r < 0.75:
+    key = keyref()
+    if key[1] in used:
+      return 'k%d' % i
+    used.add(key[1])
+    return key
+  elems = [['lit', i]]
+  for _ in range(rng.choice([1, 1, 2])):
+    k = rng.random()
+    elems.append(['lit', rng.choice([1, 'x', None])] if k < 0.25 else (['tuple', [keyref(), ['lit', 0]]] if k < 0.4 else keyref()))
+  return ['tuple', elems]
+
+
 def gen_value(rng, depth, allow_unknown, macros=()):
   r = rng.random()
   if depth <= 0 or r < 0.5:
@@ -83,9 +113,17 @@ def gen_value(rng, depth, allow_unknown, macros=()):
       return ['ref', 'c15g', rng.random() < 0.5, rng.choice(['', 'sc'])]
     return ['ref', rng.choice(UNKNOWN_R), rng.random() < 0.5, rng.choice(['', 'sc', 'a/b'])]
   n = rng.choice([1, 2, 3])
-  if r < 0.8:
+  if r < 0.72:
     return ['list', [gen_value(rng, depth - 1, allow_unknown, macros) for _ in range(n)]]
-  return ['dict', [['k%d' % i, gen_value(rng, depth - 1, allow_unknown, macros)] for i in range(n)]]
+  if r < 0.8:
+    return ['tuple', [gen_value(rng, depth - 1, allow_unknown, macros) for _ in range(n)]]
+  used = set()
+  return ['dict', [[gen_key(rng, i, allow_unknown, used), gen_value(rng, depth - 1, allow_unknown, macros)] for i in range(n)]]
+
+
+def is_tree(k):
+  """Dict keys of a value tree: a plain Python literal (string), or a value tree of their own."""
+  return isinstance(k, list)
 
 
 def vtext(v):
@@ -97,19 +135,31 @@ def vtext(v):
     return '%' + v[1]
   if v[0] == 'list':
     return '[' + ', '.join(vtext(x) for x in v[1]) + ']'
-  return '{' + ', '.join('%r: %s' % (a, vtext(b)) for a, b in v[1]) + '}'
+  if v[0] == 'tuple':
+    return '(' + ', '.join(vtext(x) for x in v[1]) + (',' if len(v[1]) == 1 else '') + ')'
+  return '{' + ', '.join('%s: %s' % (vtext(a) if is_tree(a) else repr(a), vtext(b)) for a, b in v[1]) + '}'
+
+
+def children(v):
+  """Sub-trees of a container node in evaluation order (a dict item: key, then value), each with its position label."""
+  if v[0] in ('list', 'tuple'):
+    return [(v[0], x) for x in v[1]]
+  if v[0] == 'dict':
+    out = []
+    for a, b in v[1]:
+      if is_tree(a):
+        out.append(('dict-key', a))
+      out.append(('dict-value', b))
+    return out
+  return []
 
 
 def refs_in(v, depth=0, out=None):
   out = [] if out is None else out
   if v[0] == 'ref':
     out.append((v[1], depth))
-  elif v[0] == 'list':
-    for x in v[1]:
-      refs_in(x, depth + 1, out)
-  elif v[0] == 'dict':
-    for _, x in v[1]:
-      refs_in(x, depth + 1, out)
+  for _, x in children(v):
+    refs_in(x, depth + 1, out)
   return out
 
 
@@ -117,13 +167,26 @@ def mrefs_in(v, out=None):
   out = [] if out is None else out
   if v[0] == 'mref':
     out.append(v[1])
-  elif v[0] == 'list':
-    for x in v[1]:
-      mrefs_in(x, out)
-  elif v[0] == 'dict':
-    for _, x in v[1]:
-      mrefs_in(x, out)
+  for _, x in children(v):
+    mrefs_in(x, out)
   return out
+
+
+def positions_in(v, pos='top', inkey=False, out=None):
+  """(name, position, inside a dict key?) of every reference: position = what immediately holds it (top, list, tuple, dict-value, dict-key,
+  tuple-in-dict-key)."""
+  out = [] if out is None else out
+  if v[0] == 'ref':
+    out.append((v[1], pos + '-in-dict-key' if inkey and pos != 'dict-key' else pos, inkey))
+  for p, x in children(v):
+    positions_in(x, p, inkey or p == 'dict-key', out)
+  return out
+
+
+def only_in_keys(v):
+  """The value holds unknown references, every one of them inside a dict key."""
+  unk = [k for n, _, k in positions_in(v) if n in UNKNOWN_R]
+  return bool(unk) and all(unk)
 
 
 def gen_static(rng):
@@ -334,8 +397,9 @@ def merged(fin, scope, sel):
   return out
 
 
-def reach(fin, v, out, depth=0):
-  """Unknown names whose placeholder is met when the value tree `v` is evaluated (through %macros and evaluated references)."""
+def reach(fin, v, out, depth=0, skip_keys=False):
+  """Unknown names whose placeholder is met when the value tree `v` is evaluated (through %macros and evaluated references; dict keys are
+  evaluated like values, unless skip_keys)."""
   if depth > 8:
     return out
   if v[0] == 'ref':
@@ -343,17 +407,15 @@ def reach(fin, v, out, depth=0):
       out.append(v[1])
     elif v[2]:
       for x in merged(fin, v[3], FULL['c15g']).values():
-        reach(fin, x, out, depth + 1)
+        reach(fin, x, out, depth + 1, skip_keys)
   elif v[0] == 'mref':
     mv = fin.get((v[1], 'gin.macro'), {}).get('value')
     if mv is not None:
-      reach(fin, mv, out, depth + 1)
-  elif v[0] == 'list':
-    for x in v[1]:
-      reach(fin, x, out, depth)
-  elif v[0] == 'dict':
-    for _, x in v[1]:
-      reach(fin, x, out, depth)
+      reach(fin, mv, out, depth + 1, skip_keys)
+  else:
+    for p, x in children(v):
+      if not (skip_keys and p == 'dict-key'):
+        reach(fin, x, out, depth, skip_keys)
   return out
 
 
@@ -376,9 +438,9 @@ def vcanon(v):
     return ('ref', (v[3] + '/' if v[3] else '') + 'c15.m.c15g', bool(v[2]))
   if v[0] == 'mref':
     return ('ref', v[1] + '/gin.macro', True)
-  if v[0] == 'list':
-    return ('list', tuple(vcanon(x) for x in v[1]))
-  return ('dict', tuple((canon(a), vcanon(b)) for a, b in v[1]))
+  if v[0] in ('list', 'tuple'):
+    return (v[0], tuple(vcanon(x) for x in v[1]))
+  return ('dict', tuple((vcanon(a) if is_tree(a) else canon(a), vcanon(b)) for a, b in v[1]))
 
 
 def check_placeholders(ctx, fin, text):
@@ -400,6 +462,8 @@ def check_placeholders(ctx, fin, text):
     ctx.count('placeholders_checked')
     if ctx.check(fin_exc is not None, 'finalize-accepted-unknown-reference', 'finalize() succeeded although the config holds references to unknown configurables\n' + text):
       ctx.bucket('placeholder:finalize-raises')
+      if all(only_in_keys(fin[(h[0], h[1])][h[2]]) for h in holders):
+        ctx.bucket('placeholder:finalize-raises-only-in-dict-keys')   # nothing but placeholders in key positions for the hook to find
       msg = str(fin_exc)
       ctx.check(isinstance(fin_exc, ValueError) and 'No configurable matching' in msg, 'placeholder-error-message', 'finalize error: %s: %s' % (type(fin_exc).__name__, msg[:200]))
       if ctx.check(any(n in msg for h in holders for n in h[3]), 'placeholder-error-names-other-selector',
@@ -427,6 +491,8 @@ def check_placeholders(ctx, fin, text):
                        '%s called under scope %r ran although its arguments hold placeholders for %r\n%s' % (name, sc, sorted(set(names)), text)):
         continue
       ctx.bucket('placeholder:use-raises')
+      if not [n for v in vals.values() for n in reach(fin, v, [], skip_keys=True)]:
+        ctx.bucket('placeholder:use-raises-only-in-dict-keys')   # every placeholder the evaluation meets is (part of) a dict key
       if sc:
         ctx.bucket('placeholder:use-scoped')
       if name == 'c15f':
@@ -485,6 +551,8 @@ def run_static(ctx, case):
             ctx.bucket('stmt:wrong-module-spelling-ref')
           if d >= 2:
             ctx.bucket('ref:nested-depth2+')
+      for name, pos, _ in positions_in(v):
+        ctx.bucket('refpos:%s:%s' % ('unknown' if name in UNKNOWN_R else 'known', pos))
   if any(n in KNOWN or n == 'c15cons' for n in case['listed']):
     ctx.bucket('list:includes-known-name')
   if case['skipkind'] in ('list', 'tuple', 'set') and 0 < len([n for n in case['listed'] if n in UNKNOWN_T + UNKNOWN_R]) < len(UNKNOWN_T + UNKNOWN_R):
@@ -512,7 +580,14 @@ def run_static(ctx, case):
   imports = sorted({s.module for s in gc._IMPORTS})
   # generator's own list of kept bindings
   exp = expected_store(reduced)
-  ctx.check(got == exp, 'store-differs-from-kept-bindings', '%s: store differs from the kept bindings: %r\n%s' % (where, snap.diff(got, exp), text))
+  if ctx.check(got == exp, 'store-differs-from-kept-bindings', '%s: store differs from the kept bindings: %r\n%s' % (where, snap.diff(got, exp), text)):
+    for st in reduced:
+      for v in ([st[4]] if st[0] == 'bind' else ([st[2]] if st[0] == 'macro' else ([x for _, x in st[3]] if st[0] == 'block' else []))):
+        for name, pos, inkey in positions_in(v):
+          if name in UNKNOWN_R:
+            ctx.bucket('placeholder:kept:' + pos)
+            if inkey and st[0] == 'macro':
+              ctx.bucket('placeholder:kept-in-dict-key-of-macro')
   # placeholders raise on use and at finalize (on the configuration the entry point produced)
   fin = final_bindings(reduced)
   if entry == 'two-parses' and any(n in UNKNOWN_R for d in final_bindings([st for st in stmts[:case['cuts'][0]] if st in reduced]).values()
@@ -583,13 +658,14 @@ def gen_dynamic(rng):
       stmts.append(['bind', rng.choice(['', 'sc']), t, bad[t], rng.randrange(100), False])
   if rng.random() < 0.5 and 'gamma.fg' in avail:
     ref_t = rng.choice(['nothere.g', 'PK.alpha.nofn'] + ([k for k in avail if k.endswith('fb') or k.endswith('fa')]))
-    stmts.append(['bindref', rng.choice(['', '', 'sc']), 'gamma.fg', 'ref', ref_t, ref_t in avail, rng.choice(['call', 'call', 'plain', 'list', 'dict'])])
+    stmts.append(['bindref', rng.choice(['', '', 'sc']), 'gamma.fg', 'ref', ref_t, ref_t in avail, rng.choice(['call', 'call', 'plain', 'list', 'dict', 'tuple', 'dictkey', 'tuplekey'])])
   return {'mode': 'dynamic', 'imports': imports, 'stmts': stmts, 'skip': rng.choice([True, True, False, 'list', 'list', 'tuple', 'set']),
           'full': rng.random() < 0.6, 'mask': [rng.random() < 0.7 for _ in range(8)], 'list_known': rng.random() < 0.3,
           'entry': rng.choice(['text', 'text', 'file', 'fab']), 'real_files': rng.random() < 0.2}
 
 
-REF_SHAPES = {'call': '@%s()', 'plain': '@%s', 'list': '[1, @%s()]', 'dict': "{'k': @%s}"}
+REF_SHAPES = {'call': '@%s()', 'plain': '@%s', 'list': '[1, @%s()]', 'dict': "{'k': @%s}", 'tuple': '(1, @%s)', 'dictkey': '{@%s: 1}',
+              'tuplekey': "{(1, @%s()): 'v'}"}
 
 
 def ref_canon(shape, c):
@@ -600,6 +676,12 @@ def ref_canon(shape, c):
     return c(False)
   if shape == 'list':
     return ('list', (canon(1), c(True)))
+  if shape == 'tuple':
+    return ('tuple', (canon(1), c(False)))
+  if shape == 'dictkey':
+    return ('dict', ((c(False), canon(1)),))
+  if shape == 'tuplekey':
+    return ('dict', ((('tuple', (canon(1), c(True))), canon('v')),))
   return ('dict', ((canon('k'), c(False)),))
 
 
@@ -712,12 +794,16 @@ def run_dynamic(ctx, case):
     if st[5]:
       want = ref_canon(st[6], lambda ev: ('ref', '*', ev))
       ctx.bucket('dynamic:known-reference-kept')
+      if st[6] in ('dictkey', 'tuplekey'):
+        ctx.bucket('dynamic:known-reference-in-dict-key')
       ctx.check(anon_refs(stored) == want, 'dynamic-known-reference-not-kept-as-reference',
                 'dynamic, skip_unknown=%r: the binding of gamma.fg.ref holds %r, expected the reference %r\n%s' % (skip, stored, want, text))
       continue
     want = ref_canon(st[6], lambda ev: ('unk', written, ev))
     ctx.count('placeholders_checked')
     ctx.bucket('dynamic:placeholder-in-store')
+    if st[6] in ('dictkey', 'tuplekey'):
+      ctx.bucket('dynamic:placeholder-in-dict-key')
     ctx.check(stored == want, 'dynamic-placeholder-not-kept',
               'dynamic, skip_unknown=%r: the binding of gamma.fg.ref holds %r, expected the placeholder %r\n%s' % (skip, stored, want, text))
     fg = importlib.import_module(pk + '.sub.gamma').fg
@@ -839,7 +925,8 @@ LEVEL_TEXT = ('Runtime metamorphic monitor: for every generated text and skip_un
               'parse_config_file, include statements (nested), parse_config_files_and_bindings or two successive parses; placeholders are used through '
               'every consumer and scope that an independent evaluation model says meets one (also through %macros), and the errors must name an unknown '
               'selector that is really there (at finalize: with a binding holding it); dynamic registration also with partial lists/tuples/sets '
-              '(unlisted -> error) and with the placeholder checked in the store, on use and at finalize.')
+              '(unlisted -> error) and with the placeholder checked in the store, on use and at finalize. References sit in every position of the value '
+              'syntax, including dict keys and tuples used as dict keys (model: children()/positions_in()).')
 LEVEL_NOTE = ('Trusted: the deletion rule in analyse_static/gen_dynamic and the evaluation model merged()/reach(). In list mode, unlisted unknown references '
               'inside a binding that is itself skipped are not generated (DESIGN X). Not asserted: whether an EMPTY collection still skips imports of '
               'missing modules; whether a placeholder keeps its scope; the selector under which dynamic registration stores a known reference.')
